@@ -413,4 +413,9 @@ WITNESSES = [
     {"id": "C03.w11-undo-loop-starts-at-one", "rule": "C03.R3", "file": PK,
      "old": "\t\t\t\t\tfor (unsigned int j = 0; j < i && retval == PFX_SUCCESS; j++)\n\t\t\t\t\t\tretval = rtr_undo_update_pfx_table(rtr_socket, pfx_update_table,\n\t\t\t\t\t\t\t\t\t\t   &(ipv4_pdus[j]));\n\t\t\t\t\tif (retval",
      "new": "\t\t\t\t\tfor (unsigned int j = 1; j < i && retval == PFX_SUCCESS; j++)\n\t\t\t\t\t\tretval = rtr_undo_update_pfx_table(rtr_socket, pfx_update_table,\n\t\t\t\t\t\t\t\t\t\t   &(ipv4_pdus[j]));\n\t\t\t\t\tif (retval"},
+    {"id": "C03.w12-undo-treats-not-found-as-done", "rule": "C03.R3", "file": PK,
+     "old": "\tif (((struct pdu_ipv4 *)pdu)->flags == 1)\n\t\trtval = pfx_table_remove(pfx_table, &pfxr);\n\telse if",
+     "new": "\tif (((struct pdu_ipv4 *)pdu)->flags == 1) {\n\t\trtval = pfx_table_remove(pfx_table, &pfxr);\n\t\tif (rtval == PFX_RECORD_NOT_FOUND)\n\t\t\trtval = PFX_SUCCESS;\n\t} else if"},
+    {"id": "C03.w13-spki-shadow-never-initialised", "rule": "C03.R4", "file": PK,
+     "old": "\t\t\t\tspki_table_init(spki_shadow_table, NULL);\n", "new": ""},
 ]
